@@ -25,7 +25,8 @@ ALGOS = ["PPO", "A2C", "REINFORCE", "DQN", "SAC"]
 
 def units(tier):
     us = [{"name": f"{a}-{e}", "timeout": 2400} for a in ALGOS for e in _envs_for(a)]
-    return us + [{"name": "fresh-onpolicy", "timeout": 2400}, {"name": "fresh-offpolicy", "timeout": 2400}]
+    return us + [{"name": "fresh-onpolicy", "timeout": 2400}, {"name": "fresh-offpolicy", "timeout": 2400},
+                 {"name": "gym-adapter", "timeout": 2400}]
 
 
 def _setup(algo_name, env_name, cfg, seed, extra=None):
@@ -243,7 +244,57 @@ def _run_fresh(ctx, algos):
     ctx.require("fresh_process_pairs", 2)
 
 
+def _run_gym_adapter(ctx):
+    """The environment object is an input like any other: training twice on the *same* GymToLeraxEnv (whose wrapped
+    gym.Env carries hidden Python-side state: its generator, its current episode) must give the same parameters as
+    the first time and as a fresh adapter does."""
+    import gymnasium as gym
+    import jax
+    from jax import random as jr
+    from lerax.algorithm import DQN, PPO
+    from lerax.compatibility.gym import GymToLeraxEnv
+    from lerax.policy import MLPActorCriticPolicy, MLPQPolicy
+    from vlib.common import leaves_equal, leaves_maxdiff
+
+    for i, algo_name in enumerate(["PPO", "DQN"] * ctx.n(1, 3)):
+        gid = ["CartPole-v1", "Acrobot-v1"][(i // 2) % 2]
+        mk = lambda: GymToLeraxEnv(gym.make(gid))  # noqa: E731
+        env = mk()
+        S = int(ctx.rng.integers(4, 9))
+        if algo_name == "PPO":
+            algo = PPO(num_envs=1, num_steps=S, num_batches=1, num_epochs=1, learning_rate=1e-2)
+            pol = MLPActorCriticPolicy(env, key=ctx.key(i), feature_size=4, feature_width=8, value_width=8, action_width=8)
+        else:
+            algo = DQN(buffer_size=64, learning_starts=4, num_envs=1, num_steps=S, batch_size=4, target_update_interval=3, learning_rate=1e-2)
+            pol = MLPQPolicy(env, key=ctx.key(i), width_size=8, epsilon=0.3)
+        T = 4 * S
+        k1, k2 = ctx.key(100 + i), ctx.key(200 + i)
+        info = {"algo": algo_name, "env": f"GymToLeraxEnv({gid})", "S": S, "T": T}
+        p1 = algo.learn(env, pol, T, key=k1)
+        p1b = algo.learn(env, pol, T, key=k1)          # the same adapter object, now with a history
+        p2 = algo.learn(env, pol, T, key=k2)
+        p1c = algo.learn(env, pol, T, key=k1)          # ... and after a run with another key
+        pf = algo.learn(mk(), pol, T, key=k1)          # a fresh adapter
+        jax.block_until_ready(jax.tree.leaves((p1, p1b, p2, p1c, pf)))
+        jax.effects_barrier()
+        moved = leaves_maxdiff(p1, pol)
+        ctx.case({**info, "twin": "same-adapter-repeat"}, nontrivial=moved > 0, cls=f"{algo_name}/gym-adapter-repeat")
+        ctx.monitor("gym_adapter_repeat_pairs")
+        if not leaves_equal(p1, p1b) or not leaves_equal(p1, p1c):
+            ctx.violation("same-inputs-different-parameters-on-a-used-gym-adapter",
+                          {**info, "maxdiff_second_run": leaves_maxdiff(p1, p1b), "maxdiff_after_other_key": leaves_maxdiff(p1, p1c)})
+        if not leaves_equal(p1, pf):
+            ctx.violation("fresh-gym-adapter-different-parameters", {**info, "maxdiff": leaves_maxdiff(p1, pf)})
+        if leaves_equal(p1, p2):
+            ctx.violation("different-keys-identical-runs", info)
+        if moved == 0:
+            ctx.violation("training-did-not-move-parameters", info)
+    ctx.require("gym_adapter_repeat_pairs", 2)
+
+
 def run_unit(name, ctx):
+    if name == "gym-adapter":
+        return _run_gym_adapter(ctx)
     if name == "fresh-onpolicy":
         _run_fresh(ctx, ["PPO", "A2C", "REINFORCE"])
     elif name == "fresh-offpolicy":
